@@ -18,6 +18,7 @@ import (
 	"bytes"
 	"crypto"
 	stded "crypto/ed25519"
+	"crypto/sha512"
 	"encoding/hex"
 	"encoding/json"
 	"errors"
@@ -271,6 +272,53 @@ func warm(msg []byte) bool {
 	ok := false
 	_ = mc.Catch(func() { ok = ed.Verify(ed.PublicKey(warmPriv[32:]), msg, sig) })
 	return ok
+}
+
+// signOverKeyBytes makes the signature the owner of the warm-up key would make if the public key
+// bytes in the challenge hash were keyBytes (any 32 bytes, also ones that are not a point):
+// R = rB, S = r + H(R || keyBytes || M) a.
+func signOverKeyBytes(keyBytes, msg []byte) []byte {
+	warmOnce.Do(func() { warmPriv = stded.NewKeyFromSeed(bytes.Repeat([]byte{0x17}, 32)) })
+	h := sha512.Sum512(warmPriv.Seed())
+	ab := append([]byte{}, h[:32]...)
+	ab[0] &= 248
+	ab[31] &= 127
+	ab[31] |= 64
+	a := edref.FromLE(ab)
+	rh := sha512.New()
+	rh.Write(h[32:])
+	rh.Write(msg)
+	r := edref.FromLE(rh.Sum(nil))
+	r.Mod(r, bigL)
+	R := edref.Compress(edref.Mul(r, edref.Base()))
+	kh := sha512.New()
+	kh.Write(R)
+	kh.Write(keyBytes)
+	kh.Write(msg)
+	k := edref.FromLE(kh.Sum(nil))
+	k.Mod(k, bigL)
+	S := new(big.Int).Mul(k, a)
+	S.Add(S, r)
+	S.Mod(S, bigL)
+	return append(R, edref.LE(S, 32)...)
+}
+
+// checkTwice: the same (key, message, signature) verified twice in a row, right after a valid
+// signature under another key was accepted: both verdicts are crypto/ed25519's.
+func checkTwice(pub, msg, sig []byte) *mc.Viol {
+	warm(msg)
+	want := stded.Verify(stded.PublicKey(pub), msg, sig)
+	for i := 1; i <= 2; i++ {
+		var got bool
+		if pn := mc.Catch(func() { got = ed.Verify(ed.PublicKey(pub), msg, sig) }); pn != "" {
+			return &mc.Viol{Sig: "Verify panics with a 32-byte public key: " + trunc(pn, 60), What: fmt.Sprintf("pub=%x msg=%x sig=%x: %s", pub, msg, sig, pn)}
+		}
+		if got != want {
+			return &mc.Viol{Sig: fmt.Sprintf("Verify verdict differs from crypto/ed25519 when the same input is verified a second time: fork=%v std=%v (call %d)", got, want, i),
+				What: fmt.Sprintf("pub=%x msg=%x sig=%x", pub, msg, sig)}
+		}
+	}
+	return nil
 }
 
 func checkVerify(pub, msg, sig []byte) (*mc.Viol, string, bool) {
@@ -912,6 +960,11 @@ func main() {
 		v, _, _ := checkGen(p)
 		return v
 	})
+	r.RegisterReplay("twice", func(pj json.RawMessage) *mc.Viol {
+		var p verP
+		json.Unmarshal(pj, &p)
+		return checkTwice(unhx(p.Pub), unhx(p.Msg), unhx(p.Sig))
+	})
 	r.RegisterReplay("verify", func(pj json.RawMessage) *mc.Viol {
 		var p verP
 		json.Unmarshal(pj, &p)
@@ -1139,6 +1192,22 @@ func main() {
 					}
 				}
 				cnt.flush(r, func(k string) bool { return strings.Contains(k, "verify:equation:") })
+			})
+			// every key of the alphabet (also the ones that are not points) with the signature the owner of
+			// ANOTHER, valid key would make over these key bytes, verified twice in a row
+			jobs = append(jobs, func() {
+				if stop() {
+					return
+				}
+				cnt := counter{}
+				for _, a := range aList {
+					sg := signOverKeyBytes(a, msg)
+					if v := checkTwice(a, msg, sg); v != nil {
+						r.Violation("twice", verP{hx(a), hx(msg), hx(sg)}, v)
+					}
+					cnt["twice/verify:same verdict as crypto/ed25519 on both calls"]++
+				}
+				cnt.flush(r, func(k string) bool { return true })
 			})
 			// single-bit flips of the honest triple, and other signature lengths
 			jobs = append(jobs, func() {
